@@ -148,6 +148,15 @@ func (g *gen) iofaults(p *Plan) {
 	case 1, 2: // consumer side
 		p.Kind = "rfault"
 		st, bs, n, _ := g.storedFrame(p, 5, false)
+		if g.r.Chance(1, 8) {
+			// legacy frames end with the source: every size-word read is a
+			// place where an error could be mistaken for the end
+			if st.Base == "lz4w" {
+				st.Opts.Legacy = true
+			} else {
+				st.Enc.Legacy = true
+			}
+		}
 		conc := g.r.PickInt(1, 1, 2, 4)
 		src := Source{Stored: st, Frag: g.fragFor(n), EOFWithData: g.r.Chance(1, 4), Yields: g.r.Pick(70, 20, 10)}
 		if src.Frag.Policy == "one" {
@@ -322,6 +331,12 @@ func (r *Rand) PickU32(vals ...uint32) uint32 { return vals[r.Intn(len(vals))] }
 func (g *gen) hostileGrammar() *Hostile {
 	h := &Hostile{}
 	add := func(it HItem) { h.Items = append(h.Items, it) }
+	// long runs of empty skippable frames (each is skipped, then a new frame
+	// is expected): must be handled in constant stack
+	if g.r.Chance(1, 30) {
+		fr := []byte{0x50 + byte(g.r.Intn(16)), 0x2A, 0x4D, 0x18, 0, 0, 0, 0}
+		add(HItem{Kind: "bytes", Data: fr, Rep: g.r.PickInt(2, 1000, 1<<18, 1<<20)})
+	}
 	// optional skippable frames with hostile lengths
 	for g.r.Chance(1, 4) {
 		l := g.r.PickU32(0, 1, 100, 0xFFFFFFFF, 0x7FFFFFFF, 0x80000000, 1<<20)
@@ -496,8 +511,16 @@ func (g *gen) creader(p *Plan) {
 	}
 	p.Inputs = []Input{g.input(n)}
 	c := CScript{Opts: o, In: 0, Frag: g.fragFor(n), EOFWithData: g.r.Chance(1, 3), Adaptive: g.r.Chance(1, 2)}
-	if g.r.Chance(1, 6) {
-		c.Faults = []RFault{{Call: g.r.Range(1, 8), Kind: g.r.PickStr("err0", "errn")}}
+	if g.r.Chance(1, 5) {
+		// sticky or transient source failures, at a call drawn from the
+		// number of calls the fragmentation policy implies
+		maxCall := 8
+		if c.Frag.Policy == "small" || c.Frag.Policy == "one" {
+			maxCall = 8 + n/4
+		} else if c.Frag.Policy == "rand" {
+			maxCall = 8 + n/(bs/2+1)*3
+		}
+		c.Faults = []RFault{{Call: g.r.Range(1, maxCall), Kind: g.r.PickStr("err0", "errn", "err0t", "err0t")}}
 	} else if g.r.Chance(1, 8) {
 		c.Faults = []RFault{{Call: g.r.Range(1, 8), Kind: "zero"}}
 	}
@@ -512,6 +535,11 @@ func (g *gen) creader(p *Plan) {
 	}
 	// never only zero-length buffers
 	c.Sizes = append(c.Sizes, g.r.PickInt(1, 7, 64, 4096))
+	// exact-fit mode: buffer sizes are derived at execution time from the
+	// structure of the frame so that Read buffers end exactly on (or one
+	// byte around) the boundaries of what the reader emits
+	c.Exact = g.r.Chance(1, 3)
+	c.ExactSeed = g.r.Uint64()
 	p.CRs = []CScript{c}
 	p.Phases = [][]string{{"C0"}}
 }
